@@ -193,7 +193,7 @@ def slice_sites(repo, scratch):
     return sites
 
 
-GLOBAL_PKGS = ["", "exec", "store", "parser", "node"]
+GLOBAL_PKGS = ["", "exec", "store", "parser", "node", "grammar"]   # hand-written packages (grammar: grammar.go only, not the generated sub-packages)
 
 
 def global_write_sites(repo, scratch):
